@@ -1,11 +1,27 @@
-/- Model-driver operations of cluster C (see Driver/Main.lean): generated (Gen) and hand-written (Model) code models. -/
-import PdbVerif.Driver.Json
+/- Model-driver operations of cluster C (contacts: C05, C14): the hand-written model of interface.py. -/
+import PdbVerif.Driver.CommonC
+import PdbVerif.Model.Contacts
 
 namespace Driver.ModelC
-open Lean Driver
+open Lean Driver Driver.CommonC
+
+def args (r : RawArgs) : Model.ContactArgs :=
+  { cutoff := r.cutoff, allchains := r.allchains, chain1 := r.chain1, chain2 := r.chain2,
+    extend := r.extend, bb := r.bb, noH := r.noH, retPairs := r.pairs }
 
 def op (name : String) (j : Json) : Except String (Option Json) := do
   match name with
+  | "contact_atoms" =>
+    let r ← rawArgs j
+    pure (some (exceptJ (fun o => match o with
+      | Model.ContactOut.chains d => chainsJ d
+      | Model.ContactOut.pairs d => pairsJ d) (Model.contactAtoms r.atoms (args r))))
+  | "contact_residues" =>
+    let r ← rawArgs j
+    if r.pairs then pure (some (exceptJ resPairsJ (Model.contactResiduePairs r.atoms (args r))))
+    else pure (some (exceptJ resChainsJ (Model.contactResidueSets r.atoms (args r))))
+  | "backbone_names" =>
+    pure (some (Json.arr (Model.backbone.map strJ).toArray))
   | _ => pure none
 
 end Driver.ModelC
